@@ -174,6 +174,7 @@ int disasm_tms340(
             if (mask == 0)
             {
               strcat(instruction, "0");
+              address += 2;
               break;
             }
 
